@@ -469,13 +469,41 @@ fn run(ctx: &mut Ctx) {
     run_large::<HeaderTagHeader>(ctx, &big, &bases);
     run_large::<Multiboot2BasicHeader>(ctx, &big, &bases);
     // slices of 4 GiB and more: the error precedence must not depend on the slice length's low 32 bits
-    ctx.bound("giant_slices", "per header kind: slice lengths 2^32 - 8, 2^32, 2^32 + 4, 2^32 + 8, 2^32 + 12, 2^32 + 16 x start alignment {0, 4} x declared size {16, 24, 0xFFFFFFFF}; slices in a sparsely backed 8 GiB arena (only the header bytes are touched)");
+    ctx.bound("giant_slices", "per header kind: slice lengths 2^32 - 8, 2^32, 2^32 + 4, 2^32 + 8, 2^32 + 12, 2^32 + 16 x start alignment {0, 4} x declared size {16, 24, 0xFFFFFFFF, 0, 4, 7}; slices in a sparsely backed 8 GiB arena (only the header bytes are touched)");
     {
         let giant = Arena::new_sparse((2usize << 32) / 4096);
         run_giant::<TagHeader>(ctx, &giant);
         run_giant::<BootInformationHeader>(ctx, &giant);
         run_giant::<HeaderTagHeader>(ctx, &giant);
         run_giant::<Multiboot2BasicHeader>(ctx, &giant);
+    }
+    // header words that stand in a relation to one another: a length chosen so that the first three (or all four) words
+    // of a basic header sum to zero, under the Multiboot2 magic, the Multiboot1 magic, the boot-loader magic and 0
+    ctx.bound("related_header_words", "Multiboot2BasicHeader with magic in {0xE85250D6, 0x1BADB002, 0x36D76289, 0} x architecture {0, 4} x length in {-(magic + arch), -(magic + arch + checksum word), magic, the checksum word} (mostly far larger than the slice) on slices of 16, 24 and 64 bytes: judged like every other declaration");
+    for magic in [0xE852_50D6u32, 0x1BAD_B002, 0x36D7_6289, 0] {
+        for arch in [0u32, 4] {
+            for li in 0..4 {
+                for len in [16usize, 24, 64] {
+                    let cs = 0x9182_7364u32;
+                    let decl = [0u32.wrapping_sub(magic).wrapping_sub(arch), 0u32.wrapping_sub(magic).wrapping_sub(arch).wrapping_sub(cs), magic, cs][li];
+                    let describe = || J::obj().set("part", "related_header_words").set("magic", format!("{:#x}", magic)).set("architecture", arch).set("declared_size", decl).set("slice_len", len);
+                    ctx.leaf(describe, |ctx| {
+                        ctx.state_direct();
+                        let mut img = vec![0u8; len];
+                        for (i, b) in img.iter_mut().enumerate() {
+                            *b = marker(i, 1);
+                        }
+                        wr32(&mut img, 0, magic);
+                        wr32(&mut img, 4, arch);
+                        wr32(&mut img, 8, decl);
+                        wr32(&mut img, 12, cs);
+                        let p = arena.place_at(arena.len() - len, &img);
+                        let slice: &[u8] = unsafe { std::slice::from_raw_parts(p, len) };
+                        check_one::<Multiboot2BasicHeader>(ctx, slice, decl as usize, 0);
+                    });
+                }
+            }
+        }
     }
     call_pairs(ctx, &arena);
     rounding(ctx);
@@ -484,7 +512,7 @@ fn run(ctx: &mut Ctx) {
 fn run_giant<H: HK>(ctx: &mut Ctx, arena: &Arena) {
     for len in [(1usize << 32) - 8, 1 << 32, (1 << 32) + 4, (1 << 32) + 8, (1 << 32) + 12, (1 << 32) + 16] {
         for align in [0usize, 4] {
-            for decl in [16u32, 24, 0xFFFF_FFFF] {
+            for decl in [16u32, 24, 0xFFFF_FFFF, 0, 4, 7] {
                 let describe = || J::obj().set("part", "giant").set("header_kind", H::NAME).set("slice_len", len).set("declared_size", decl).set("start_alignment", align);
                 ctx.leaf(describe, |ctx| {
                     ctx.state_direct();
